@@ -142,7 +142,7 @@ CLAIMS["C12"] = {
 }
 
 CLAIMS["C14"] = {
-    "technique": "bounded stand-ins only: Kani harnesses on get_locale_from_path extracted verbatim (trait Locale reduced to get_all / as_str) + exhaustive native enumeration over a closed universe on match_path_segments / construct_path_segments / PathBuilder extracted verbatim (neither verifier reaches them)",
+    "technique": "bounded stand-ins only: Kani harnesses on get_locale_from_path extracted verbatim (trait Locale reduced to get_all / as_str) + exhaustive native enumeration over a closed universe on match_path_segments / construct_path_segments / localize_path / PathBuilder extracted verbatim (neither verifier reaches them)",
     "text": "Bounded. First sentence: for every path of up to 4 (quick) / 7 (thorough) characters "
             "after the base path, over the characters of the locale names, `/` and one other letter, with locales en, "
             "en-US, fr listed in either order and base path \"\" or /a, get_locale_from_path returns the locale whose "
@@ -151,13 +151,15 @@ CLAIMS["C14"] = {
             "level only: for every path of up to 3 (quick) / 4 (thorough) segments and every route of up to 3 / 5 "
             "segments over every PathSegment variant (static, empty static, param, optional param, splat, unit), a path "
             "that matches a route is rewritten against the same route to exactly its own segments in order (nothing "
-            "dropped, added or reordered), and rewritten to the route's localized form and back yields the original "
-            "segments.",
+            "dropped, added or reordered; the rebuilt text is `/` + those segments joined by `/`), rewritten to the "
+            "route's localized form and back yields the original segments, and localize_path on the path text (plain, "
+            "with a trailing slash, with doubled slashes) against a table of two routes finds a route exactly when one "
+            "matches and rebuilds that same normalised text.",
     "note": "Both parts are bounded stand-ins, not counted as proved; the second is a native enumeration of the extracted "
             "real code (Verus rejects labelled break/continue; CBMC did not finish a 2-segment x 2-route symbolic harness "
             "in 280 s), every failure it reports is a concrete failing input. Shims: PathSegment = leptos_router 0.7.8's "
             "definition copied, HashSet<usize> array-backed. Not covered: get_new_path (signals, Url, query string and "
-            "fragment), localize_path's split / find_map glue and the choice among several routes, the locale prefix "
+            "fragment), round trips through tables of several routes with different localizations, the locale prefix "
             "added by get_new_path, route generation (I18nNestedRoute), a base path that is not followed by a segment "
             "boundary, longer paths / routes and other segment texts.",
     "design_ref": "DESIGN.md sections 8.12, 8.22",
